@@ -1,7 +1,7 @@
 """C06 Soft/weak/phantom references and finalizers follow their semantics (DESIGN.md 4/C06)."""
 import re
 from .common import *
-from .sched import stage_sites, stage_order
+from .sched import stage_sites, stage_order, check_trace_kinds
 from ..engine import AnalysisError, show, strip, short, walk, last_seg, tree_calls
 
 PROP = "C06"
@@ -162,6 +162,8 @@ def run(ctx, F):
 
     # ---- C06.stages
     sites = stage_sites(F)
+    # "updated to its new address": the forwarding rounds of the two-pass plans use the forwarding trace, the liveness rounds the marking trace
+    check_trace_kinds(ctx, F, "C06.stages", sites, ("RefForwarding", "FinalizableForwarding"), ("SoftRefClosure", "FinalRefClosure"), 8)
     want = {"SoftRefProcessing": "SoftRefClosure", "WeakRefProcessing": "WeakRefClosure", "Finalization": "FinalRefClosure", "PhantomRefProcessing": "PhantomRefClosure",
             "RefForwarding": "RefForwarding", "ForwardFinalization": "FinalizableForwarding", "RefEnqueue": "Release"}
     n = 0
